@@ -132,18 +132,23 @@ namespace sqf::parser::config
                     // Check if line comment start
                     if (len_ident_match(iter, "#line"))
                     {
-                        iter += 6;
+                        iter += 5;
+                        iter += len_match<' ', '\t'>(iter);
 
                         // Read in line num
                         auto start = iter;
-                        for (; iter != m_end && *iter != '\n' && *iter != ' '; iter++);
+                        for (; iter < m_end && *iter >= '0' && *iter <= '9' && iter - start < 9; iter++);
+                        if (iter == start)
+                        { // no line number follows, this is no line directive
+                            break;
+                        }
                         std::string str_tmp(start, iter);
                         m_line = static_cast<size_t>(std::stoul(str_tmp));
 
                         // Try skip to file
                         iter += len_match<' ', '\t'>(iter);
                         start = iter;
-                        for (; iter != m_end && *iter != '\n'; iter++);
+                        for (; iter < m_end && *iter != '\n'; iter++);
                         if (iter != m_end && iter - start >= 2)
                         {
                             // Read-in file
@@ -264,6 +269,10 @@ namespace sqf::parser::config
                         {
                             m_line++;
                             m_column = 0;
+                        }
+                        if (iter == m_end)
+                        { // unterminated string, ended by the end of the input
+                            break;
                         }
                         ++iter;
                     }
